@@ -311,14 +311,16 @@ def polytomy_cases(run, rnd):
                 col[k] = rnd.choice(alpha)
             cols.append(col)
         if gapped:
-            # > 64 children, every sequence with one gap (6 patterns per leaf): a pattern key built from the children's
-            # pattern numbers exceeds 63 bits; columns that differ only in the FIRST children must stay distinct
+            # > 64 children; every tip shows all four bases and one gap (the same number of leaf patterns everywhere): a
+            # pattern key built from the children's pattern numbers exceeds 63 bits; columns that differ only in one of
+            # the FIRST children (singletons) must stay distinct from the columns they resemble
+            cols = [[("ACGT"[c % 4])] * ntips for c in range(ncols)]
             for k in range(ntips):
-                cols[rnd.randrange(ncols)][k] = "-"
-            for c in range(0, ncols - 1, 3):
-                cols[c] = list(cols[c + 1])
-                k = (c // 3) % 3            # the pair differs in child 0, 1 or 2 only
-                cols[c + 1][k], cols[c][k] = "A", "G"
+                cols[10 + (k % 20)][k] = "-"
+            for k, (c, x) in enumerate(((0, "G"), (1, "T"), (2, "A"), (3, "C"))):
+                cols[c][k] = x
+            cols[4][ntips // 2] = "G"
+            cols[5][ntips - 1] = "T"
         seqs = {t: "".join(c[i] for c in cols) for i, t in enumerate(tips)}
         aln = make_aligned_seqs(seqs, moltype="dna")
         params = {"kappa": 2.5} if model == "HKY85" else {"kappa": 2.5, "omega": 0.6}
